@@ -17,6 +17,7 @@ import sys
 
 from . import gen
 from .common import HarnessError, SimStream, digest_obj, outcome_of, repo_src
+from .threads import SimDeadlock
 
 PROP = "C11"
 
@@ -247,6 +248,9 @@ class Runner:
             judged = [self.judge(t, all_tids) for t in texts]
         except Violation as v:
             return self._viol(v, -1, sc, step_log, info)
+        except SimDeadlock as e:
+            return self._viol(Violation("operation-never-returns", {"phase": "pristine constructions, one after another", "detail": str(e)}),
+                              -1, sc, step_log, info)
         n_slots = sc["n_slots"]
         slots = [None] * n_slots            # real evaluators
         model = [None] * n_slots            # index of accepted text, or None
@@ -286,6 +290,15 @@ class Runner:
                     raise HarnessError("unknown op " + kind)
                 # cross-invariant after every step, for every live slot
                 self._check_all(step, op, texts, judged, slots, model, tainted, all_tids)
+            except SimDeadlock as e:
+                sys.settrace(None)
+                v = Violation("operation-never-returns", {"op": op, "why": "the operation blocks on a lock that an earlier (finished or failed) "
+                                                                          "operation left held; nothing else is running, so it would never return",
+                                                          "detail": str(e)})
+                rec["violation"] = v.vclass
+                step_log.append(rec)
+                info["ops_executed"] = step + 1
+                return self._viol(v, step, sc, step_log, info)
             except Violation as v:
                 rec["violation"] = v.vclass
                 step_log.append(rec)
